@@ -86,17 +86,22 @@ Section SafeX.
     SafeX L cd c p -> (forall cd' c' a, L cd' c' a -> SafeX M cd' c' (f a)) -> SafeX M cd c (bind p f).
   Proof. intros Hp Hf. induction Hp; cbn [bind]; try (constructor; auto; fail). apply Hf. assumption. Qed.
 
-  (* leaves of the programs that run after an origin call: nothing is claimed about them here *)
+  (* leaves of programs that run after an origin call and whose result is not the subject *)
   Definition Lcalled {A} : bool -> xctx -> A -> Prop := fun cd _ _ => cd = true.
 
   (* ---------- the programs of the transport ---------- *)
+  (* StoreResponse hands back the response it was given, hop-by-hop fields removed; when the body could not be read,
+     without it *)
+  Definition Lstored (r : response) : bool -> xctx -> response -> Prop := fun cd _ r1 =>
+    cd = true /\ p_status r1 = p_status r /\ (p_body r1 = p_body r \/ p_body r1 = -1).
+
   Lemma store_response_safeX c q r u refs a b i : (forall id, Src (stored_form id r a b)) ->
-    SafeX (@Lcalled response) true c (store_response q r u refs a b i).
+    SafeX (Lstored r) true c (store_response q r u refs a b i).
   Proof.
     intros H. unfold store_response. destruct (normalize_vary _ _); [|constructor].
     cbn [p_body_ok with_hdr]. destruct (p_body_ok r).
-    - apply SX_SetEntry; [apply H|]. apply SX_SetRefs. constructor. reflexivity.
-    - apply SX_SetRefs. constructor. reflexivity.
+    - apply SX_SetEntry; [apply H|]. apply SX_SetRefs. constructor. split; [reflexivity|split; [reflexivity|left; reflexivity]].
+    - apply SX_SetRefs. constructor. split; [reflexivity|split; [reflexivity|right; reflexivity]].
   Qed.
 
   Lemma del_all_safeX {A} (L : bool -> xctx -> A -> Prop) cd c ks : forall done (f : list bytes -> prog A),
@@ -124,20 +129,53 @@ Section SafeX.
   Definition reply_known (q : request) (a b : Z) (rep : origin_reply) : Prop :=
     forall r', rep = RResp r' -> exists r, r' = fixed r b /\ GX q a b r.
 
+  (* ---------- what HandleValidationResponse returns ---------- *)
+  (* the validation failed in a way stale-if-error covers: no reply, or 500 / 502 / 503 / 504 *)
+  Definition sie_failure (rep : origin_reply) : Prop :=
+    rep = RErr \/ exists r', rep = RResp r' /\ is_stale_error_allowed (p_status r') = true.
+  Definition stale_if_error_outcome (e : stored_entry) (f : freshness) (now : Z) : outcome :=
+    OResp (response_of (entry_with_hdr e (apply_status STALE (hset (bs "Age") (age_header_value f now) (e_hdr e))))).
+
+  Definition hvr_leaf (stored : stored_entry) (f : freshness) (cc_req : directives) (no_stale : bool)
+             (rep : origin_reply) (o : outcome) : Prop :=
+    (* the call failed and nothing stale may be used: the failure *)
+    (rep = RErr /\ o = OErr) \/
+    (* 304: the stored response, freshened, marked REVALIDATED *)
+    (exists r' r1, rep = RResp r' /\ p_status r' = 304 /\
+       o = OResp (with_hdr r1 (apply_status REVALIDATED (p_hdr r1))) /\
+       p_status r1 = e_status stored /\ (p_body r1 = e_body stored \/ p_body r1 = -1)) \/
+    (* stale-if-error: only when validation was not demanded, after a covered failure, inside the window *)
+    (exists now, no_stale = false /\ sie_failure rep /\
+       can_stale_on_error f [resp_stale_if_error (parse_cc (e_hdr stored)); req_stale_if_error cc_req] now = true /\
+       o = stale_if_error_outcome stored f now) \/
+    (* anything else: the origin's own reply, marked MISS (stored) or BYPASS *)
+    (exists r' r1 st, rep = RResp r' /\ p_status r' <> 304 /\ (st = MISS \/ st = BYPASS) /\
+       o = OResp (with_hdr r1 (apply_status st (p_hdr r1))) /\ p_status r1 = p_status r').
+
+  Definition Lhvr (ctx : reval_ctx) (rep : origin_reply) : bool -> xctx -> outcome -> Prop := fun cd _ o =>
+    cd = true /\ hvr_leaf (rc_stored ctx) (rc_fresh ctx) (rc_cc_req ctx) (rc_no_stale ctx) rep o.
+
   Lemma hvr_safeX c ctx q rep : is_get (q_method q) = true -> Src (rc_stored ctx) ->
     reply_known q (rc_start ctx) (rc_end ctx) rep ->
-    SafeX (@Lcalled outcome) true c (handle_validation_response ctx q rep).
+    SafeX (Lhvr ctx rep) true c (handle_validation_response ctx q rep).
   Proof.
     intros Hget Hst Hrep. unfold handle_validation_response. rewrite Hget. cbn [andb].
     destruct rep as [|r'].
-    - match goal with |- SafeX _ _ _ (if ?x then _ else _) => destruct x end; [|constructor; reflexivity].
-      constructor. intros now _. destruct (can_stale_on_error _ _ _); constructor; reflexivity.
+    - destruct (rc_no_stale ctx) eqn:Ens; cbn [negb andb]; [constructor; split; [reflexivity|left; split; reflexivity]|].
+      constructor. intros now _. destruct (can_stale_on_error _ _ _) eqn:Ec; constructor; (split; [reflexivity|]).
+      + right. right. left. exists now. split; [exact Ens|split; [left; reflexivity|split; [exact Ec|reflexivity]]].
+      + left. split; reflexivity.
     - destruct (Hrep r' eq_refl) as (r & -> & Hg).
       destruct (p_status (fixed r (rc_end ctx)) =? 304) eqn:E304.
-      + destruct (_ || _); [constructor; reflexivity|].
-        eapply SafeX_bind; [apply store_response_safeX|intros cd' c' a ->; constructor; reflexivity].
-        intros id. eapply Src_fresh; [exact Hst|exact Hg|apply Z.eqb_eq in E304; exact E304|reflexivity].
-      + assert (Hafter : forall c', SafeX (@Lcalled outcome) true c'
+      + apply Z.eqb_eq in E304.
+        destruct (_ || _).
+        * constructor. split; [reflexivity|]. right. left. eexists _, _. split; [reflexivity|split; [exact E304|split; [reflexivity|split; [reflexivity|left; reflexivity]]]].
+        * eapply SafeX_bind; [apply store_response_safeX|].
+          -- intros id. eapply Src_fresh; [exact Hst|exact Hg|exact E304|reflexivity].
+          -- intros cd' c' r1 (-> & Hs1 & Hb1). constructor. split; [reflexivity|]. right. left.
+             eexists _, r1. split; [reflexivity|split; [exact E304|split; [reflexivity|split; [exact Hs1|exact Hb1]]]].
+      + apply Z.eqb_neq in E304.
+        assert (Hafter : forall c', SafeX (Lhvr ctx (RResp (fixed r (rc_end ctx)))) true c'
           (let cc_resp := parse_cc (p_hdr (fixed r (rc_end ctx))) in
            if can_store_response (fixed r (rc_end ctx)) (rc_cc_req ctx) cc_resp
            then r1 <- store_response q (fixed r (rc_end ctx)) (rc_url_key ctx) (rc_refs ctx) (rc_start ctx) (rc_end ctx) (rc_ref_index ctx);;
@@ -146,13 +184,22 @@ Section SafeX.
                 then invalidate_cache (q_url q) (p_hdr (fixed r (rc_end ctx))) (rc_refs ctx) (rc_url_key ctx)
                        (Ret (OResp (with_hdr (fixed r (rc_end ctx)) (apply_status BYPASS (p_hdr (fixed r (rc_end ctx)))))))
                 else Ret (OResp (with_hdr (fixed r (rc_end ctx)) (apply_status BYPASS (p_hdr (fixed r (rc_end ctx)))))))).
-        { intros c'. cbv zeta. destruct (can_store_response _ _ _).
-          - eapply SafeX_bind; [apply store_response_safeX|intros cd' c'' a ->; constructor; reflexivity].
-            intros id. eapply Src_full; [exact Hg| |reflexivity].
-            apply Z.eqb_neq in E304. exact E304.
-          - destruct (_ && _); [apply invalidate_cache_safeX|]; constructor; reflexivity. }
-        match goal with |- SafeX _ _ _ (if ?x then _ else _) => destruct x end; [|apply Hafter].
-        constructor. intros now _. destruct (can_stale_on_error _ _ _); [constructor; reflexivity|apply Hafter].
+        { intros c'. cbv zeta.
+          assert (Hby : forall c'', SafeX (Lhvr ctx (RResp (fixed r (rc_end ctx)))) true c''
+                    (Ret (OResp (with_hdr (fixed r (rc_end ctx)) (apply_status BYPASS (p_hdr (fixed r (rc_end ctx)))))))).
+          { intros c''. constructor. split; [reflexivity|]. right. right. right.
+            eexists _, _, BYPASS. split; [reflexivity|split; [exact E304|split; [right; reflexivity|split; reflexivity]]]. }
+          destruct (can_store_response _ _ _).
+          - eapply SafeX_bind; [apply store_response_safeX|].
+            + intros id. eapply Src_full; [exact Hg|exact E304|reflexivity].
+            + intros cd' c'' r1 (-> & Hs1 & _). constructor. split; [reflexivity|]. right. right. right.
+              eexists _, r1, MISS. split; [reflexivity|split; [exact E304|split; [left; reflexivity|split; [reflexivity|exact Hs1]]]].
+          - destruct (_ && _); [apply invalidate_cache_safeX|]; apply Hby. }
+        destruct (rc_no_stale ctx) eqn:Ens; cbn [negb andb]; [apply Hafter|].
+        destruct (is_stale_error_allowed (p_status (fixed r (rc_end ctx)))) eqn:Esie; [|apply Hafter].
+        constructor. intros now _. destruct (can_stale_on_error _ _ _) eqn:Ec; [|apply Hafter].
+        constructor. split; [reflexivity|]. right. right. left. exists now.
+        split; [exact Ens|split; [right; eexists; split; [reflexivity|exact Esie]|split; [exact Ec|reflexivity]]].
   Qed.
 
   Lemma rtt_safeX {A} (L : bool -> xctx -> A -> Prop) cd c q (f : origin_reply -> Z -> Z -> prog A) :
@@ -165,31 +212,40 @@ Section SafeX.
     - apply Hf. intros r' E. injection E as <-. exists r. split; [reflexivity|]. apply Hb. reflexivity.
   Qed.
 
-  (* leaves of a RoundTrip for q: an answer given without contacting the origin is the synthesised 504 or the
-     served form of an entry with a known source, at the clock reading just taken *)
-  Definition Lrt (q : request) : bool -> xctx -> outcome -> Prop := fun cd c o =>
-    cd = false ->
+  (* ---------- leaves of a RoundTrip for q that starts at clock reading t0 ---------- *)
+  (* without an origin call: the synthesised 504, or the served form of an entry with a known source *)
+  Definition unvalidated (q : request) (t0 : Z) (o : outcome) : Prop :=
     o = OResp response_504 \/
-    exists e now, c = XR now /\ Src e /\ (decide_hit q e now = DServe \/ decide_hit q e now = DServeSWR) /\
-                  o = served_outcome q e now.
+    exists e, Src e /\ (decide_hit q e t0 = DServe \/ decide_hit q e t0 = DServeSWR) /\ o = served_outcome q e t0.
+  (* after an origin call: the call's failure, its reply marked MISS or BYPASS, or — on a hit whose decision was to
+     validate — what HandleValidationResponse makes of the reply to the conditional request *)
+  Definition after_call (q : request) (t0 : Z) (o : outcome) : Prop :=
+    o = OErr \/
+    (exists r1 st, (st = MISS \/ st = BYPASS) /\ o = OResp (with_hdr r1 (apply_status st (p_hdr r1)))) \/
+    (exists e must a b rep, Src e /\ decide_hit q e t0 = DRevalidate must /\
+       reply_known (with_conditional_headers q (e_hdr e)) a b rep /\
+       hvr_leaf e (calculate_freshness e (parse_cc (q_hdr q)) (parse_cc (e_hdr e)) t0) (parse_cc (q_hdr q)) must rep o).
 
-  Lemma Lcalled_Lrt q cd c o : Lcalled cd c o -> Lrt q cd c o.
-  Proof. unfold Lcalled, Lrt. intros -> H. discriminate. Qed.
+  Definition Lrt (q : request) (t0 : Z) : bool -> xctx -> outcome -> Prop := fun cd _ o =>
+    if cd then after_call q t0 o else unvalidated q t0 o.
 
   Lemma SafeX_weaken {A} (L M : bool -> xctx -> A -> Prop) cd c (p : prog A) :
     (forall cd' c' a, L cd' c' a -> M cd' c' a) -> SafeX L cd c p -> SafeX M cd c p.
   Proof. intros H Hp. induction Hp; constructor; auto. Qed.
 
-  Lemma miss_safeX cd c q u refs i : is_get (q_method q) = true -> SafeX (Lrt q) cd c (handle_cache_miss q u refs i).
+  Lemma miss_safeX c q t0 u refs i : is_get (q_method q) = true -> SafeX (Lrt q t0) false c (handle_cache_miss q u refs i).
   Proof.
-    intros Hget. unfold handle_cache_miss. destruct (req_only_if_cached _); [constructor; intros _; left; reflexivity|].
-    apply rtt_safeX. intros [|r'] a b Hrep; [constructor; intros H; discriminate|]. cbv zeta.
+    intros Hget. unfold handle_cache_miss. destruct (req_only_if_cached _); [constructor; left; reflexivity|].
+    apply rtt_safeX. intros [|r'] a b Hrep; [constructor; left; reflexivity|]. cbv zeta.
     destruct (Hrep r' eq_refl) as (r & -> & Hg).
-    destruct (negb (p_status (fixed r b) =? 304)) eqn:E304; cbn [andb]; [|constructor; intros H; discriminate].
-    destruct (can_store_response _ _ _); [|constructor; intros H; discriminate].
-    eapply SafeX_bind; [apply store_response_safeX|intros cd' c' x ->; constructor; intros H; discriminate].
-    intros id. eapply Src_full; [exact Hg| |reflexivity].
-    apply Bool.negb_true_iff, Z.eqb_neq in E304. exact E304.
+    assert (Hpass : forall c', SafeX (Lrt q t0) true c' (Ret (OResp (with_hdr (fixed r b) (apply_status MISS (p_hdr (fixed r b))))))).
+    { intros c'. constructor. right. left. eexists _, MISS. split; [left; reflexivity|reflexivity]. }
+    destruct (negb (p_status (fixed r b) =? 304)) eqn:E304; cbn [andb]; [|apply Hpass].
+    destruct (can_store_response _ _ _); [|apply Hpass].
+    eapply SafeX_bind; [apply store_response_safeX|].
+    - intros id. eapply Src_full; [exact Hg| |reflexivity].
+      apply Bool.negb_true_iff, Z.eqb_neq in E304. exact E304.
+    - intros cd' c' r1 (-> & _). constructor. right. left. eexists r1, MISS. split; [left; reflexivity|reflexivity].
   Qed.
 
   Lemma bg_safeX c q stored u f cc : is_get (q_method q) = true ->
@@ -202,23 +258,24 @@ Section SafeX.
     apply hvr_safeX; cbn [rc_stored rc_start rc_end]; [exact Hget|apply Hown; reflexivity|exact Hrep].
   Qed.
 
-  Lemma hit_safeX cd c q stored u refs i : is_get (q_method q) = true -> Src stored ->
-    SafeX (Lrt q) cd c (handle_cache_hit q stored u refs i).
+  Lemma hit_safeX q t0 stored u refs i : is_get (q_method q) = true -> Src stored ->
+    SafeX (Lrt q t0) false (XR t0) (handle_cache_hit q stored u refs i).
   Proof.
-    intros Hget Hst. unfold handle_cache_hit. constructor. intros now _. cbv zeta.
-    destruct (decide_hit q stored now) eqn:Ed.
-    - constructor. intros _. right. exists stored, now. split; [reflexivity|split; [exact Hst|split; [left; exact Ed|]]].
+    intros Hget Hst. unfold handle_cache_hit. constructor. intros now Hnow. cbn [now_okx] in Hnow. subst now. cbv zeta.
+    destruct (decide_hit q stored t0) eqn:Ed.
+    - constructor. right. exists stored. split; [exact Hst|split; [left; exact Ed|]].
       unfold served_outcome. rewrite Ed. reflexivity.
     - unfold handle_stale_while_revalidate. apply SX_Spawn; [apply bg_safeX; exact Hget|].
-      constructor. intros _. right. exists stored, now. split; [reflexivity|split; [exact Hst|split; [right; exact Ed|]]].
+      constructor. right. exists stored. split; [exact Hst|split; [right; exact Ed|]].
       unfold served_outcome. rewrite Ed. reflexivity.
-    - constructor. intros _. left. reflexivity.
-    - apply rtt_safeX. intros rep a b Hrep. eapply SafeX_weaken; [apply Lcalled_Lrt|].
-      apply hvr_safeX; cbn [rc_stored rc_start rc_end]; [exact Hget|exact Hst|exact Hrep].
+    - constructor. left. reflexivity.
+    - apply rtt_safeX. intros rep a b Hrep. eapply SafeX_weaken; [|apply hvr_safeX; cbn [rc_stored rc_start rc_end]; [exact Hget|exact Hst|exact Hrep]].
+      intros cd' c' o (-> & Hl). cbn [rc_stored rc_fresh rc_cc_req rc_no_stale] in Hl.
+      right. right. exists stored, must, a, b, rep. split; [exact Hst|split; [exact Ed|split; [exact Hrep|exact Hl]]].
   Qed.
 End SafeX.
 
-Theorem round_trip_safeX GX q : SafeX GX (Lrt GX q) false XU (round_trip q).
+Theorem round_trip_safeX GX q t0 : SafeX GX (Lrt GX q t0) false (XR t0) (round_trip q).
 Proof.
   unfold round_trip. destruct (is_request_method_understood q) eqn:Hund; cbn [negb].
   - assert (Hget : is_get (q_method q) = true).
@@ -231,9 +288,11 @@ Proof.
     destruct oi as [i|]; [|apply miss_safeX; exact Hget].
     destruct (nth_error sorted (Z.to_nat i)) as [r|]; [|constructor].
     constructor. intros e He. destruct e as [stored|]; [apply hit_safeX; [exact Hget|apply He; reflexivity]|apply miss_safeX; exact Hget].
-  - unfold handle_unrecognized_method. apply SX_Origin. intros [|r]; [constructor; intros H; discriminate|].
-    destruct (_ && _); [|constructor; intros H; discriminate].
-    unfold get_refs_clean. constructor. intros ans. apply invalidate_cache_safeX. constructor. intros H; discriminate.
+  - unfold handle_unrecognized_method. apply SX_Origin. intros [|r]; [constructor; left; reflexivity|].
+    assert (Hby : forall c, SafeX GX (Lrt GX q t0) true c (Ret (OResp (with_hdr r (apply_status BYPASS (p_hdr r)))))).
+    { intros c. constructor. right. left. eexists r, BYPASS. split; [right; reflexivity|reflexivity]. }
+    destruct (_ && _); [|apply Hby].
+    unfold get_refs_clean. constructor. intros ans. apply invalidate_cache_safeX. apply Hby.
 Qed.
 
 (* ---------- the semantic side ---------- *)
@@ -278,12 +337,30 @@ Lemma has_call_snoc y ev : has_call y -> has_call (y ++ [ev]).
 Proof. intros (i & q & a & b & rep & H). exists i, q, a, b, rep. apply in_or_app. left. exact H. Qed.
 
 (* what a finished run says about its result: the leaf predicate holds for a flag and a context that fit the final
-   world; an unset flag means no origin call was made (the clock did not move); a set flag was set before or an
-   origin call is in the log *)
+   world; the flag is unset exactly when no origin call was logged since the start (given that it was unset then) *)
 Definition leaf_post {A} (Lf : list event) (L : bool -> xctx -> A -> Prop) (cd : bool) (w w' : world) (a : A) : Prop :=
   exists cd' c', L cd' c' a /\ ctx_okx Lf c' w' /\
-    (cd' = false -> cd = false /\ w_clock w' = w_clock w) /\
+    (cd' = false -> cd = false /\ exists y, w_log w' = y ++ w_log w /\ ~ has_call y) /\
     (cd' = true -> cd = true \/ exists y, w_log w' = y ++ w_log w /\ has_call y).
+
+Lemma no_call_snoc y ev : ~ has_call y -> (forall i q a b rep, ev <> EvCall i q a b rep) -> ~ has_call (y ++ [ev]).
+Proof.
+  intros Hy Hev (i & q & a & b & rep & Hin). apply in_app_or in Hin as [Hin|[Hin|[]]].
+  - apply Hy. exists i, q, a, b, rep. exact Hin.
+  - apply (Hev i q a b rep). exact Hin.
+Qed.
+
+(* one more event that is not a call, in front of the run *)
+Lemma leaf_post_step {A} Lf (L : bool -> xctx -> A -> Prop) cd (w wm w' : world) ev (a : A) :
+  w_log wm = ev :: w_log w -> (forall i q a0 b rep, ev <> EvCall i q a0 b rep) ->
+  leaf_post Lf L cd wm w' a -> leaf_post Lf L cd w w' a.
+Proof.
+  intros Hm Hev (cd' & c' & Hl & Hc' & Hf & Ht). exists cd', c'. split; [exact Hl|split; [exact Hc'|split]].
+  - intros E. destruct (Hf E) as (Hd & y & Hy & Hn). split; [exact Hd|].
+    exists (y ++ [ev]). split; [rewrite Hy, Hm, <- app_assoc; reflexivity|apply no_call_snoc; assumption].
+  - intros E. destruct (Ht E) as [Hd|(y & Hy & Hcall)]; [left; exact Hd|right].
+    exists (y ++ [ev]). split; [rewrite Hy, Hm, <- app_assoc; reflexivity|apply has_call_snoc, Hcall].
+Qed.
 
 Lemma run_safeX {A} (p : prog A) : forall (L : bool -> xctx -> A -> Prop) cd c Lf limit w res w',
   SafeX (GXl Lf) L cd c p -> ctx_okx Lf c w -> InvX Lf (w_store w) -> Forall (pend_okx Lf) (w_pending w) ->
@@ -295,43 +372,33 @@ Proof.
     intros L cd c Lf limit w res w' HS Hc HI HP H Hincl; cbn [run] in H; apply SafeX_inversion in HS; cbn [SafeX_inv] in HS.
   - injection H as <- <-. split; [exact HI|split; [exact HP|]]. intros a' E. injection E as <-.
     exists cd, c. split; [exact HS|split; [exact Hc|split]].
-    + intros ->. split; reflexivity.
+    + intros ->. split; [reflexivity|]. exists []. split; [reflexivity|intros (i & q & a0 & b & rep & [])].
     + intros ->. left. reflexivity.
   - (* GetRefs *)
     pose proof H as H0.
     eapply IH in H0 as (HI' & HP' & Hleaf); [|apply HS|destruct c; exact Hc|exact HI|exact HP|exact Hincl].
-    split; [exact HI'|split; [exact HP'|]]. intros a E. destruct (Hleaf a E) as (cd' & c' & Hl & Hc' & Hf & Ht).
-    exists cd', c'. split; [exact Hl|split; [exact Hc'|split; [exact Hf|]]].
-    intros E'. destruct (Ht E') as [Hd|(y & Hy & Hcall)]; [left; exact Hd|right].
-    eexists (y ++ [_]). split; [rewrite Hy, <- app_assoc; reflexivity|apply has_call_snoc, Hcall].
+    split; [exact HI'|split; [exact HP'|]]. intros a E.
+    eapply leaf_post_step; [| |apply Hleaf, E]; [reflexivity|intros; discriminate].
   - (* GetEntry *)
     pose proof H as H0.
     eapply IH in H0 as (HI' & HP' & Hleaf); [|apply HS; intros e E; exact (HI k e E)|destruct c; exact Hc|exact HI|exact HP|exact Hincl].
-    split; [exact HI'|split; [exact HP'|]]. intros a E. destruct (Hleaf a E) as (cd' & c' & Hl & Hc' & Hf & Ht).
-    exists cd', c'. split; [exact Hl|split; [exact Hc'|split; [exact Hf|]]].
-    intros E'. destruct (Ht E') as [Hd|(y & Hy & Hcall)]; [left; exact Hd|right].
-    eexists (y ++ [_]). split; [rewrite Hy, <- app_assoc; reflexivity|apply has_call_snoc, Hcall].
+    split; [exact HI'|split; [exact HP'|]]. intros a E.
+    eapply leaf_post_step; [| |apply Hleaf, E]; [reflexivity|intros; discriminate].
   - (* SetEntry *)
     destruct HS as [He HS]. pose proof H as H0.
     eapply IH in H0 as (HI' & HP' & Hleaf); [|exact HS|destruct c; exact Hc|cbn; apply InvX_set_entry; assumption|exact HP|exact Hincl].
-    split; [exact HI'|split; [exact HP'|]]. intros a E. destruct (Hleaf a E) as (cd' & c' & Hl & Hc' & Hf & Ht).
-    exists cd', c'. split; [exact Hl|split; [exact Hc'|split; [exact Hf|]]].
-    intros E'. destruct (Ht E') as [Hd|(y & Hy & Hcall)]; [left; exact Hd|right].
-    eexists (y ++ [_]). split; [rewrite Hy, <- app_assoc; reflexivity|apply has_call_snoc, Hcall].
+    split; [exact HI'|split; [exact HP'|]]. intros a E.
+    eapply leaf_post_step; [| |apply Hleaf, E]; [reflexivity|intros; discriminate].
   - (* SetRefs *)
     pose proof H as H0.
     eapply IH in H0 as (HI' & HP' & Hleaf); [|exact HS|destruct c; exact Hc|cbn; apply InvX_set_refs; assumption|exact HP|exact Hincl].
-    split; [exact HI'|split; [exact HP'|]]. intros a E. destruct (Hleaf a E) as (cd' & c' & Hl & Hc' & Hf & Ht).
-    exists cd', c'. split; [exact Hl|split; [exact Hc'|split; [exact Hf|]]].
-    intros E'. destruct (Ht E') as [Hd|(y & Hy & Hcall)]; [left; exact Hd|right].
-    eexists (y ++ [_]). split; [rewrite Hy, <- app_assoc; reflexivity|apply has_call_snoc, Hcall].
+    split; [exact HI'|split; [exact HP'|]]. intros a E.
+    eapply leaf_post_step; [| |apply Hleaf, E]; [reflexivity|intros; discriminate].
   - (* Del *)
     pose proof H as H0.
     eapply IH in H0 as (HI' & HP' & Hleaf); [|exact HS|destruct c; exact Hc|cbn; apply InvX_del; assumption|exact HP|exact Hincl].
-    split; [exact HI'|split; [exact HP'|]]. intros a E. destruct (Hleaf a E) as (cd' & c' & Hl & Hc' & Hf & Ht).
-    exists cd', c'. split; [exact Hl|split; [exact Hc'|split; [exact Hf|]]].
-    intros E'. destruct (Ht E') as [Hd|(y & Hy & Hcall)]; [left; exact Hd|right].
-    eexists (y ++ [_]). split; [rewrite Hy, <- app_assoc; reflexivity|apply has_call_snoc, Hcall].
+    split; [exact HI'|split; [exact HP'|]]. intros a E.
+    eapply leaf_post_step; [| |apply Hleaf, E]; [reflexivity|intros; discriminate].
   - (* Origin *)
     destruct (do_origin_reply limit r w) as (idx & Hl & Hst & Hpe). destruct (do_origin limit r w) as [rep w1] eqn:Ed. cbn [fst snd] in *.
     destruct (run_log_mono _ _ _ _ _ H) as [[y Hy] _].
@@ -379,15 +446,17 @@ Proof.
     + injection H as _ <-. exact HI1.
 Qed.
 
-(* an answer given without contacting the origin *)
-Definition unvalidated_answer (Lf : list event) (q : request) (now : Z) (o : outcome) : Prop :=
-  o = OResp response_504 \/
-  exists e, Src (GXl Lf) e /\ (decide_hit q e now = DServe \/ decide_hit q e now = DServeSWR) /\ o = served_outcome q e now.
+(* what an exchange for q that starts at clock reading t0 may return: without an origin call in the exchange,
+   [unvalidated]; with one, [after_call] *)
+Definition unvalidated_answer (Lf : list event) := unvalidated (GXl Lf).
+Definition answer_after_call (Lf : list event) := after_call (GXl Lf).
 
 Theorem exchange_safeX Lf cfg q w obs w' :
   InvX Lf (w_store w) -> exchange cfg q w = (obs, w') -> incl (x_events obs ++ x_bg_events obs) Lf ->
   InvX Lf (w_store w') /\
-  (forall o, x_result obs = Done o -> ~ has_call (x_events obs) -> unvalidated_answer Lf q (x_t0 obs) o).
+  (forall o, x_result obs = Done o ->
+     (~ has_call (x_events obs) -> unvalidated_answer Lf q (x_t0 obs) o) /\
+     (has_call (x_events obs) -> answer_after_call Lf q (x_t0 obs) o)).
 Proof.
   intros HI H Hincl. unfold exchange in H.
   destruct (run None (round_trip q) (clear_log_pending w)) as [res w1] eqn:E1.
@@ -395,18 +464,20 @@ Proof.
   injection H as <- <-. cbn [x_events x_bg_events x_result x_t0] in *.
   assert (Hfg : incl (w_log w1) Lf) by (apply incl_rev_l; intros x Hx; apply Hincl; apply in_or_app; left; exact Hx).
   assert (Hbg : incl (w_log w2) Lf) by (apply incl_rev_l; intros x Hx; apply Hincl; apply in_or_app; right; exact Hx).
-  destruct (run_safeX (round_trip q) _ false XU Lf None (clear_log_pending w) res w1
-              (round_trip_safeX (GXl Lf) q) I HI (Forall_nil _) E1 Hfg) as (HI1 & HP1 & Hleaf).
+  destruct (run_safeX (round_trip q) _ false (XR (w_clock w)) Lf None (clear_log_pending w) res w1
+              (round_trip_safeX (GXl Lf) q (w_clock w)) eq_refl HI (Forall_nil _) E1 Hfg) as (HI1 & HP1 & Hleaf).
   split.
   - exact (run_pending_safeX Lf _ _ (clear_log_pending w1) ok w2 HP1 HI1 (Forall_nil _) E2 Hbg).
-  - intros o Ho Hnc. destruct (Hleaf o Ho) as (cd' & c' & Hl & Hc' & Hf & Ht).
-    destruct cd'.
-    + exfalso. destruct (Ht eq_refl) as [Hd|(y & Hy & Hcall)]; [discriminate|]. apply Hnc.
-      cbn [clear_log_pending w_log] in Hy. rewrite app_nil_r in Hy. rewrite Hy.
-      destruct Hcall as (i & q0 & a & b & rep & Hin). exists i, q0, a, b, rep. apply in_rev. rewrite rev_involutive. exact Hin.
-    + destruct (Hf eq_refl) as [_ Hclk]. cbn [clear_log_pending w_clock] in Hclk.
-      destruct (Hl eq_refl) as [E|(e & now & -> & Hs & Hd & E)]; [left; exact E|right].
-      cbn [ctx_okx] in Hc'. exists e. split; [exact Hs|]. rewrite <- Hclk, Hc'. split; [exact Hd|exact E].
+  - intros o Ho. destruct (Hleaf o Ho) as (cd' & c' & Hl & Hc' & Hf & Ht).
+    assert (Hrev : forall y, w_log w1 = y ++ [] -> (has_call (rev (w_log w1)) <-> has_call y)).
+    { intros y Hy. rewrite app_nil_r in Hy. rewrite Hy. split; intros (i & q0 & a & b & rep & Hin); exists i, q0, a, b, rep;
+        [apply in_rev; exact Hin|apply in_rev in Hin; exact Hin]. }
+    destruct cd'; unfold Lrt in Hl.
+    + split; [|intros _; exact Hl].
+      intros Hnc. exfalso. destruct (Ht eq_refl) as [Hd|(y & Hy & Hcall)]; [discriminate|].
+      apply Hnc. apply (Hrev y Hy). exact Hcall.
+    + split; [intros _; exact Hl|].
+      intros Hc. exfalso. destruct (Hf eq_refl) as (_ & y & Hy & Hn). apply Hn. apply (Hrev y Hy). exact Hc.
 Qed.
 
 (* every exchange of a sequential history, from any store satisfying the invariant *)
@@ -415,7 +486,9 @@ Theorem history_safeX Lf cfg h : forall w,
   incl (flat_map (fun o => x_events o ++ x_bg_events o) (run_history cfg h w)) Lf ->
   InvX Lf (w_store (final_world cfg h w)) /\
   forall k gq obs o, nth_error h k = Some gq -> nth_error (run_history cfg h w) k = Some obs ->
-    x_result obs = Done o -> ~ has_call (x_events obs) -> unvalidated_answer Lf (snd gq) (x_t0 obs) o.
+    x_result obs = Done o ->
+    (~ has_call (x_events obs) -> unvalidated_answer Lf (snd gq) (x_t0 obs) o) /\
+    (has_call (x_events obs) -> answer_after_call Lf (snd gq) (x_t0 obs) o).
 Proof.
   induction h as [|[gap q] h IH]; intros w HI Hincl; [split; [exact HI|intros k gq obs o Hk; destruct k; discriminate]|].
   cbn [run_history final_world] in *.
@@ -428,7 +501,7 @@ Proof.
   destruct (IH w2 HI2) as [HIf Hrest].
   { intros x Hx. apply Hincl. apply in_or_app. right. exact Hx. }
   split; [exact HIf|].
-  intros k gq obs' o Hk Ho Hr Hnc. destruct k as [|k].
+  intros k gq obs' o Hk Ho Hr. destruct k as [|k].
   - cbn in Hk, Ho. injection Hk as <-. injection Ho as <-. cbn [snd]. apply Hres; assumption.
   - cbn in Hk, Ho. eapply Hrest; eassumption.
 Qed.
@@ -535,4 +608,43 @@ Proof.
   split; intros (i & q0 & a & b & rep & Hin); apply in_rev in Hin.
   - apply Hn1. rewrite <- Hy1. exists i, q0, a, b, rep. exact Hin.
   - apply Hn2. rewrite <- Hy2. exists i, q0, a, b, rep. exact Hin.
+Qed.
+
+(* ---------- reading the answer after an origin call by its cache status ---------- *)
+Lemma status_of_applied r1 st r : OResp r = OResp (with_hdr r1 (apply_status st (p_hdr r1))) ->
+  hvalues status_header (p_hdr r) = [status_value st].
+Proof. intros E. injection E as ->. cbn [p_hdr with_hdr]. apply status_values. Qed.
+
+(* marked STALE after an origin call: the stale-if-error path *)
+Lemma after_call_stale GX q t0 r : after_call GX q t0 (OResp r) -> hvalues status_header (p_hdr r) = [bs "STALE"] ->
+  exists e now a b rep,
+    Src GX e /\ decide_hit q e t0 = DRevalidate false /\
+    reply_known GX (with_conditional_headers q (e_hdr e)) a b rep /\ sie_failure rep /\
+    can_stale_on_error (calculate_freshness e (parse_cc (q_hdr q)) (parse_cc (e_hdr e)) t0)
+      [resp_stale_if_error (parse_cc (e_hdr e)); req_stale_if_error (parse_cc (q_hdr q))] now = true /\
+    OResp r = stale_if_error_outcome e (calculate_freshness e (parse_cc (q_hdr q)) (parse_cc (e_hdr e)) t0) now.
+Proof.
+  intros [E|[(r1 & st & Hst & E)|(e & must & a & b & rep & Hs & Hd & Hk & Hl)]] Hv; [discriminate| |].
+  - rewrite (status_of_applied _ _ _ E) in Hv. destruct Hst as [-> | ->]; discriminate.
+  - destruct Hl as [[_ E]|[(r' & r1 & _ & _ & E & _)|[(now & -> & Hf & Hc & E)|(r' & r1 & st & _ & _ & Hst & E & _)]]]; [discriminate| | |].
+    + rewrite (status_of_applied _ _ _ E) in Hv. discriminate.
+    + exists e, now, a, b, rep. repeat split; assumption.
+    + rewrite (status_of_applied _ _ _ E) in Hv. destruct Hst as [-> | ->]; discriminate.
+Qed.
+
+(* marked REVALIDATED: a 304 to the conditional request built from the stored validators, in this exchange *)
+Lemma after_call_revalidated GX q t0 r : after_call GX q t0 (OResp r) -> hvalues status_header (p_hdr r) = [bs "REVALIDATED"] ->
+  exists e must a b r0,
+    Src GX e /\ decide_hit q e t0 = DRevalidate must /\
+    GX (with_conditional_headers q (e_hdr e)) a b r0 /\ p_status r0 = 304 /\
+    p_status r = e_status e /\ (p_body r = e_body e \/ p_body r = -1).
+Proof.
+  intros [E|[(r1 & st & Hst & E)|(e & must & a & b & rep & Hs & Hd & Hk & Hl)]] Hv; [discriminate| |].
+  - rewrite (status_of_applied _ _ _ E) in Hv. destruct Hst as [-> | ->]; discriminate.
+  - destruct Hl as [[_ E]|[(r' & r1 & -> & H3 & E & Hst & Hb)|[(now & _ & _ & _ & E)|(r' & r1 & st & _ & _ & Hst & E & _)]]]; [discriminate| | |].
+    + destruct (Hk r' eq_refl) as (r0 & -> & Hg). injection E as ->.
+      exists e, must, a, b, r0. repeat split; assumption.
+    + unfold stale_if_error_outcome in E. injection E as ->. cbn [p_hdr response_of entry_with_hdr e_hdr] in Hv.
+      rewrite status_values in Hv. discriminate.
+    + rewrite (status_of_applied _ _ _ E) in Hv. destruct Hst as [-> | ->]; discriminate.
 Qed.
